@@ -36,6 +36,7 @@ theorem C06_zero_never (cfg : Cfg) (l : Led) (h : Nat) (s : String) (f t : SvcId
 
 /-- a rejected request (FAILED receipt), a batch request and a begin-failed request are never listed -/
 theorem C06_rejected_never (cfg : Cfg) (l : Led) (h : Nat) (s : String) (i : Ibtp) (p : ProofKind) (rc : Rcpt)
+    (hreq : i.typ.isResponse = false)
     (hrej : rc.ok = false ∨ rc.ret = "batch_ibtp" ∨ rc.txStatus = 1) :
     timeoutAct cfg l h (.ibtp s i p) rc = .skip := by
   simp only [timeoutAct]
@@ -45,25 +46,46 @@ theorem C06_rejected_never (cfg : Cfg) (l : Led) (h : Nat) (s : String) (i : Ibt
     cases ht : i.to with
     | none => rfl
     | some t =>
-      have : (t.chain == cfg.bxh || i.group.isSome || (!rc.ok || rc.ret == "batch_ibtp") || rc.txStatus == 1) = true := by
-        rcases hrej with h1 | h1 | h1 <;> simp [h1]
+      have : (t.chain == cfg.bxh || i.group.isSome || ((!rc.ok || rc.ret == "batch_ibtp") && !i.typ.isResponse) || rc.txStatus == 1) = true := by
+        rcases hrej with h1 | h1 | h1 <;> simp [h1, hreq]
       simp only [this, if_true]
 
-/-- an accepted receipt for a one-to-one record asks for removal from the list of the recorded
-timeout height -/
+/-- a receipt asks for removal from the list of the recorded timeout height exactly when the
+request no longer waits: it was accepted plainly, or it is counted as invalid ("batch_ibtp" of an
+unordered source service, or rejected) and the record already has a final status.  (Before the
+`fix:` commit "an accepted receipt of an unordered source service leaves the timeout list" every
+"batch_ibtp" receipt was skipped and the request timed out although it had been answered.) -/
 theorem C06_receipt_removes (cfg : Cfg) (l : Led) (h : Nat) (s : String) (f t : SvcId) (idx : Nat)
     (ty : IType) (p : ProofKind) (rc : Rcpt) (r : Rec)
     (hresp : ty.isResponse = true)
-    (hok : rc.ok = true) (hnb : rc.ret ≠ "batch_ibtp") (hnf : rc.txStatus ≠ 1) (hdst : t.chain ≠ cfg.bxh)
-    (hrec : l.getS (.txRec { frm := f, to := t, index := idx }) = some (.trec r)) :
+    (hnf : rc.txStatus ≠ 1) (hdst : t.chain ≠ cfg.bxh)
+    (hrec : l.getS (.txRec { frm := f, to := t, index := idx }) = some (.trec r))
+    (hdone : (rc.ok = true ∧ rc.ret ≠ "batch_ibtp") ∨ r.status.isFinal = true) :
     timeoutAct cfg l h (.ibtp s { frm := some f, to := some t, index := idx, typ := ty, timeout := 0, group := none } p) rc
       = .remove r.height { frm := f, to := t, index := idx } := by
   unfold timeoutAct
   have h1 : (t.chain == cfg.bxh) = false := by simpa using hdst
-  have h2 : (rc.ret == "batch_ibtp") = false := by simpa using hnb
   have h3 : (rc.txStatus == 1) = false := by simpa using hnf
   have h5 : ty.isRequest = false := by cases ty <;> simp_all [IType.isResponse, IType.isRequest]
-  simp [h1, h2, h3, hok, h5, hresp, hrec]
+  rcases hdone with ⟨hok, hnb⟩ | hfin
+  · have h2 : (rc.ret == "batch_ibtp") = false := by simpa using hnb
+    simp [h1, h2, h3, hok, h5, hresp, hrec]
+  · simp [h1, h3, h5, hresp, hrec, hfin]
+
+/-- a receipt that was not accepted plainly and whose request still waits (record not final)
+leaves the timeout list alone -/
+theorem C06_unaccepted_receipt_keeps (cfg : Cfg) (l : Led) (h : Nat) (s : String) (f t : SvcId) (idx : Nat)
+    (ty : IType) (p : ProofKind) (rc : Rcpt) (r : Rec)
+    (hresp : ty.isResponse = true)
+    (hrec : l.getS (.txRec { frm := f, to := t, index := idx }) = some (.trec r))
+    (hinv : rc.ok = false ∨ rc.ret = "batch_ibtp") (hwait : r.status.isFinal = false) :
+    timeoutAct cfg l h (.ibtp s { frm := some f, to := some t, index := idx, typ := ty, timeout := 0, group := none } p) rc
+      = .skip := by
+  unfold timeoutAct
+  have h5 : ty.isRequest = false := by cases ty <;> simp_all [IType.isResponse, IType.isRequest]
+  have hi : (!rc.ok || rc.ret == "batch_ibtp") = true := by rcases hinv with h1 | h1 <;> simp [h1]
+  simp only [hi, hresp, h5, hrec, hwait]
+  split <;> simp
 
 /-- `getTimeoutList` of a stored list whose first element is not empty is the list itself -/
 theorem getTimeoutList_of (l : Led) (h : Nat) (x : TId) (xs : List TId)
